@@ -161,6 +161,7 @@ def base_collection(rng=None):
     t.add_component(CategoricalComponent(np.array(['a', 'b', 'a', 'c', 'b', 'a', 'c', 'c'])), 'cat')
     t.add_component(np.array(['2020-01-0%d' % (i + 1) for i in range(n)], dtype='datetime64[D]'), 'when')
     t['der'] = t.id['x'] * 2 + t.id['y']
+    t['dx'] = t.id['x'] * 3 - 1              # depends on x only: readable from any dataset that is linked to x
     t.get_component(t.id['z']).units = 'km'
     img = Data(label='image', v=np.arange(12, dtype=float).reshape((3, 4)) - 3.5, coords=AffineCoordinates(np.array([[2., 0.5, 1.], [0., 1.5, -2.], [0., 0., 1.]])))
     cube = Data(label='cube', w=(np.arange(24, dtype=float).reshape((2, 3, 4)) * 1.5 - 7), coords=IdentityCoordinates(n_dim=3))
